@@ -450,8 +450,13 @@ def replay_tier(check, tier, stats, known):
                 if e is not None and e["status"] == "known":
                     log(f"note: known finding '{e['signature']}' did not reproduce on this tree")
             except Violation as v:
-                if e is not None and e["status"] == "known" and sig_matches(e["signature"], v.signature):
-                    print(f"KNOWN-FINDING: property={check.prop} {e['what']}", flush=True)
+                # The entry being replayed, or (a stored case of a repaired finding can still run into another,
+                # listed one) any entry with status "known" whose exact signature the violation carries.
+                hit = e if (e is not None and e["status"] == "known" and sig_matches(e["signature"], v.signature)) else \
+                    next((k for k in known if k.get("status") == "known" and sig_matches(k["signature"], v.signature)), None)
+                if hit is not None:
+                    if hit is e:
+                        print(f"KNOWN-FINDING: property={check.prop} {e['what']}", flush=True)
                     stats.extra["known_findings_reproduced"] = stats.extra.get(
                         "known_findings_reproduced", 0) + 1
                 else:
